@@ -47,8 +47,12 @@ def gen_stdin_bytes(rng):
     if k < 0.55:
         return 'valid', base
     bad = rng.choice([b'\xff', b'\x80', b'\xc3', b'\xe2\x82', b'\xed\xa0\x80', b'\xf8\x88\x80\x80\x80', b'\xc0\x80'])
-    if k < 0.7:
+    if k < 0.62:
         return 'invalid_first_line', b'a' + bad + b'b\n' + base
+    if k < 0.7:
+        # the invalid byte sits behind multi-byte text of varying length (byte offsets inside characters)
+        pre = ''.join(rng.choice(['가', 'é', '😀', 'a', '한', ' ']) for _ in range(rng.randint(3, 40))).encode('utf-8')
+        return 'invalid_after_multibyte_text', rng.choice([b'', b'ok\n']) + pre + bad + rng.choice([b'\n', b'', b'z\n']) + base
     if k < 0.85:
         return 'invalid_later_line', b'ok line\nsecond\n' + b'x' + bad + b'\n' + base
     if k < 0.93:
